@@ -924,6 +924,8 @@ VSattach(HFILEID     f,    /* IN: file handle */
                     HGOTO_ERROR(DFE_ARGS, FAIL);
                 access_rec->posn = 0; /* to fix bugzilla #486 - BMR, Dec, 05 */
             }
+            else if (w->nattach) /* attached for 'w': being written, forbidden */
+                HGOTO_ERROR(DFE_BADATTACH, FAIL);
             else {
                 vs = w->vs;
 
